@@ -161,7 +161,37 @@ fn scaling_specs(r: &mut TestRunner, n: usize) -> Vec<Spec> {
     for i in 0..n {
         let mut rules = vec![];
         let mut lets: Vec<(String, Re)> = vec![];
-        match i % 6 {
+        match i % 7 {
+            6 => {
+                // regex trees more than 256 levels deep: one flat alternation of 260-400 keywords
+                // (directly or through a `let`) and one concatenation of as many characters
+                let k = 260 + (sample(&count, r) as usize % 141);
+                let mut seen = std::collections::BTreeSet::new();
+                let mut a: Option<Re> = None;
+                while seen.len() < k {
+                    let w = keyword(r, (2, 6));
+                    if seen.insert(w.clone()) {
+                        a = Some(match a {
+                            None => Re::Str(w),
+                            Some(x) => alt(x, Re::Str(w)),
+                        });
+                    }
+                }
+                let a = a.unwrap();
+                if i % 14 == 6 {
+                    lets.push(("kw".to_string(), a));
+                    rules.push((cat(Re::Var("kw".into()), Re::Char(';')), None));
+                } else {
+                    rules.push((cat(a, Re::Char(';')), None));
+                }
+                let letters: Vec<char> = ('a'..='z').collect();
+                let mut c = Re::Char('#');
+                for j in 0..k {
+                    c = cat(c, Re::Char(letters[(j * 7 + i) % 26]));
+                }
+                rules.push((c, None));
+                rules.push((plus(Re::Set(vec![SetItem::R('a', 'z')])), None));
+            }
             5 => {
                 // repetition nested 10-16 levels deep (directly, or through a chain of `let`s):
                 // a construction that compiles the operand of `+` or `*` twice doubles per level
@@ -243,7 +273,12 @@ fn scaling_specs(r: &mut TestRunner, n: usize) -> Vec<Spec> {
                 rules.push((cat(Re::Char('#'), a), Some(Re::Builtin("ascii_whitespace".into()))));
             }
         }
-        out.push(crate::props2::simple_spec(rules, i % 2 == 0, lets));
+        let mut sp = crate::props2::simple_spec(rules, i % 2 == 0, lets);
+        if i % 7 == 6 {
+            // flat chains, not nested parentheses
+            sp.paren = oracle::spec::ParenStyle::Minimal;
+        }
+        out.push(sp);
     }
     out
 }
@@ -509,6 +544,17 @@ pub fn run_c12(tier: Tier) -> i32 {
         ("Lexer -> Tok<'input>;", "tok"),
         ("Lexer(u8) -> u32; type Error = Pair<'input, 'input>;", ""),
         ("pub Lexer(std::collections::HashMap<u32, Vec<&'a str>>) -> u32;", ""),
+        // a lifetime repeated with another one in between
+        ("Lexer(Triple<'a, 'b, 'a>) -> u32;", ""),
+        ("Lexer((&'x str, &'y str, &'x str)) -> u32;", ""),
+        // lifetimes inside function-pointer types, trait objects and associated-type bindings
+        ("Lexer(fn(&'input str) -> bool) -> u32;", ""),
+        ("Lexer(Box<dyn FnMut(&'input str) + 'input>) -> u32;", ""),
+        ("Lexer(Box<dyn FnMut(&str) + 'a>) -> u32;", ""),
+        ("Lexer(Box<dyn Iterator<Item = &'a str> + 'a>) -> u32;", ""),
+        // the error type mentions a lifetime of the user state type
+        ("Lexer(Pair<'m, 'm>) -> u32; type Error = Tok<'m>;", ""),
+        ("Lexer(Pair<'m, 'input>) -> u32; type Error = Pair<'input, 'm>;", ""),
     ];
     let bodies = [
         "rule Init { 'a' = V, 'b'+ => |lexer| { let _ = lexer.state(); lexer.return_(V) }, ' ', } rule Other { $$alphabetic+ = V, }",
@@ -523,7 +569,7 @@ pub fn run_c12(tier: Tier) -> i32 {
                 _ => "7",
             };
             let text = format!(
-                "#[allow(dead_code)]\npub struct Pair<'x, 'y>(pub &'x str, pub &'y str);\n#[allow(dead_code)]\npub struct Tok<'t>(pub &'t str);\nlexgen::lexer! {{\n{}\n{}\n}}\n{}",
+                "#[allow(dead_code)]\npub struct Pair<'x, 'y>(pub &'x str, pub &'y str);\n#[allow(dead_code)]\npub struct Triple<'x, 'y, 'z>(pub &'x str, pub &'y str, pub &'z str);\n#[allow(dead_code)]\npub struct Tok<'t>(pub &'t str);\nlexgen::lexer! {{\n{}\n{}\n}}\n{}",
                 h,
                 b.replace("V", v),
                 dummy_run()
@@ -540,6 +586,15 @@ pub fn run_c12(tier: Tier) -> i32 {
             );
             modules.insert(2_000_000 + hi * 10 + 5, text);
         }
+    }
+    // the state type arrives as a `$st:ty` fragment of a macro_rules! wrapper (a grouped type)
+    for (wi, st) in ["&'a str", "Option<&'input str>", "(u8, &'static str)"].iter().enumerate() {
+        let text = format!(
+            "macro_rules! mk_lexer {{ ($st:ty) => {{ lexgen::lexer! {{ Lexer($st) -> u32; rule Init {{ 'a' = 7, ['b'-'z']+ = 8, ' ', }} }} }} }}\nmk_lexer!({});\n{}",
+            st,
+            dummy_run()
+        );
+        modules.insert(2_500_000 + wi, text);
     }
     let n_modules = modules.len();
     let build = genc::build_modules(&format!("c12_{}_{}", tier.name(), seed()), modules.clone(), 16);
@@ -1031,7 +1086,27 @@ fn mutants(r: &mut TestRunner, i: usize) -> Vec<Mutant> {
             late,
         })
     };
-    match i % 18 {
+    match i % 19 {
+        18 => {
+            // the header line `<vis> Lexer(<state type>) -> <token type>;` with one defect
+            let d = pr(&base);
+            let good = "Lexer(rt::St) -> u32;";
+            let variants = [
+                "Lexer(rt::St, u32) -> u32;",
+                "Lexer() -> u32;",
+                "Lexer(rt::St,) -> u32;",
+                "Lexer(rt::St) u32;",
+                "Lexer(rt::St) -> ;",
+                "(rt::St) -> u32;",
+                "Lexer(rt::St) => u32;",
+                "Lexer(rt::St) -> u32",
+                "Lexer(rt::St)(u32) -> u32;",
+                "Lexer[rt::St] -> u32;",
+            ];
+            if d.contains(good) {
+                push(&mut out, "syntax-header", d.replacen(good, variants[pos % variants.len()], 1), false, false);
+            }
+        }
         0 => {
             // unbound variable inside a rule
             let mut s = base.clone();
